@@ -31,8 +31,10 @@ fn refi() -> Ty {
     Ty::Ref(Box::new(Ty::i32()))
 }
 
-fn op(o: &str, tag: &str, r: VarId, d: VarId) -> Stmt {
+fn op(o: &str, tag: &str, r: VarId, d: VarId, k: VarId) -> Stmt {
     match o {
+        // a plain local captured by value
+        "local" => st(println(add(s(tag), add(s("k"), i2s(v(k)))))),
         "print" => st(println(s(tag))),
         "read" => st(println(add(s(tag), i2s(rget(r))))),
         "write1" => st(rset(r, int(1))),
@@ -63,10 +65,10 @@ fn seqs(alphabet: &[&'static str], min: usize, max: usize) -> Vec<Vec<&'static s
 }
 
 pub fn bodies() -> Vec<Vec<&'static str>> {
-    seqs(&["print", "read", "write1", "inc", "done"], 1, 2)
+    seqs(&["print", "read", "write1", "inc", "done", "local"], 1, 2)
 }
 pub fn tails() -> Vec<Vec<&'static str>> {
-    seqs(&["print", "read", "inc", "wait"], 0, 2)
+    seqs(&["print", "read", "inc", "wait", "shadow"], 0, 2)
 }
 
 pub fn build(form: &str, place: &str, body: &[&str], tail: &[&str]) -> Program {
@@ -74,29 +76,32 @@ pub fn build(form: &str, place: &str, body: &[&str], tail: &[&str]) -> Program {
     let mut items: Vec<Item> = Vec::new();
     let r = n.fresh("r");
     let d = n.fresh("d");
-    let mut b: Vec<Stmt> = vec![let_(r, bi("ref", vec![int(0)])), let_(d, bi("ref", vec![int(0)]))];
+    let k = n.fresh("k");
+    let mut b: Vec<Stmt> = vec![let_(r, bi("ref", vec![int(0)])), let_(d, bi("ref", vec![int(0)])), let_(k, int(5))];
     // the goroutine's body over the cells (rr, dd) visible where the closure is written
-    let body_block = |rr: VarId, dd: VarId| block(body.iter().map(|o| op(o, "g", rr, dd)).collect(), None);
+    // (a function of its own - `mk`, `worker`, `spawner` - gets the local as a parameter named alike)
+    let body_block_k = |rr: VarId, dd: VarId, kk: VarId| block(body.iter().map(|o| op(o, "g", rr, dd, kk)).collect(), None);
+    let body_block = |rr: VarId, dd: VarId| body_block_k(rr, dd, k);
     // statements that spawn, written where (rr, dd) name the cells
-    let spawn = |n: &mut Names, items: &mut Vec<Item>, rr: VarId, dd: VarId| -> Vec<Stmt> {
+    let spawn = |n: &mut Names, items: &mut Vec<Item>, rr: VarId, dd: VarId, kk: VarId| -> Vec<Stmt> {
         match form {
-            "literal" => vec![st(E::Go(Box::new(E::Closure(vec![], Box::new(body_block(rr, dd))))))],
+            "literal" => vec![st(E::Go(Box::new(E::Closure(vec![], Box::new(body_block_k(rr, dd, kk))))))],
             "let-bound" => {
                 let f = n.fresh("f");
-                vec![let_(f, E::Closure(vec![], Box::new(body_block(rr, dd)))), st(E::Go(Box::new(v(f))))]
+                vec![let_(f, E::Closure(vec![], Box::new(body_block_k(rr, dd, kk)))), st(E::Go(Box::new(v(f))))]
             }
             "made-by-call" => {
                 if !items.iter().any(|i| matches!(i, Item::Fn(f) if f.name == "mk")) {
-                    let (pr, pd) = (n.fresh("pr"), n.fresh("pd"));
-                    items.push(fn_def("mk", vec![(pr, refi()), (pd, refi())], Some(unit_fn()), block(vec![], Some(E::Closure(vec![], Box::new(body_block(pr, pd)))))));
+                    let (pr, pd, pk) = (n.fresh("pr"), n.fresh("pd"), n.fresh("pk"));
+                    items.push(fn_def("mk", vec![(pr, refi()), (pd, refi()), (pk, Ty::i32())], Some(unit_fn()), block(vec![], Some(E::Closure(vec![], Box::new(body_block_k(pr, pd, pk)))))));
                 }
-                vec![st(E::Go(Box::new(call("mk", vec![v(rr), v(dd)]))))]
+                vec![st(E::Go(Box::new(call("mk", vec![v(rr), v(dd), v(kk)]))))]
             }
             "if-joined" => {
                 let (f, g, c) = (n.fresh("f"), n.fresh("g"), n.fresh("c"));
                 vec![
                     let_(c, bin(BinOp::Lt, rget(dd), int(100))),
-                    let_(f, E::Closure(vec![], Box::new(body_block(rr, dd)))),
+                    let_(f, E::Closure(vec![], Box::new(body_block_k(rr, dd, kk)))),
                     let_(g, E::Closure(vec![], Box::new(block(vec![st(println(s("other")))], None)))),
                     st(E::Go(Box::new(E::Paren(Box::new(if_(v(c), block(vec![], Some(v(f))), block(vec![], Some(v(g))))))))),
                 ]
@@ -107,68 +112,77 @@ pub fn build(form: &str, place: &str, body: &[&str], tail: &[&str]) -> Program {
                 }
                 let h = n.fresh("h");
                 vec![
-                    let_(h, E::StructLit("Holder".into(), vec![("tag".into(), int(7)), ("run".into(), E::Closure(vec![], Box::new(body_block(rr, dd))))], vec![])),
+                    let_(h, E::StructLit("Holder".into(), vec![("tag".into(), int(7)), ("run".into(), E::Closure(vec![], Box::new(body_block_k(rr, dd, kk))))], vec![])),
                     st(E::Go(Box::new(E::Field(Box::new(v(h)), "run".into())))),
                 ]
             }
             "vec-element" => {
                 let fs = n.fresh("fs");
                 vec![
-                    let_t(fs, Ty::Vec(Box::new(unit_fn())), bi("vec_push", vec![bi("vec_new", vec![]), E::Closure(vec![], Box::new(body_block(rr, dd)))])),
+                    let_t(fs, Ty::Vec(Box::new(unit_fn())), bi("vec_push", vec![bi("vec_new", vec![]), E::Closure(vec![], Box::new(body_block_k(rr, dd, kk)))])),
                     st(E::Go(Box::new(bi("vec_get", vec![v(fs), int(0)])))),
                 ]
             }
             _ => {
                 if !items.iter().any(|i| matches!(i, Item::Fn(f) if f.name == "worker")) {
-                    let (pr, pd) = (n.fresh("wr"), n.fresh("wd"));
-                    items.push(fn_def("worker", vec![(pr, refi()), (pd, refi())], Some(Ty::Unit), body_block(pr, pd)));
+                    let (pr, pd, pk) = (n.fresh("wr"), n.fresh("wd"), n.fresh("wk"));
+                    items.push(fn_def("worker", vec![(pr, refi()), (pd, refi()), (pk, Ty::i32())], Some(Ty::Unit), body_block_k(pr, pd, pk)));
                 }
-                vec![st(E::Go(Box::new(E::Closure(vec![], Box::new(call("worker", vec![v(rr), v(dd)]))))))]
+                vec![st(E::Go(Box::new(E::Closure(vec![], Box::new(call("worker", vec![v(rr), v(dd), v(kk)]))))))]
             }
         }
     };
     match place {
-        "main" => b.extend(spawn(&mut n, &mut items, r, d)),
+        "main" => b.extend(spawn(&mut n, &mut items, r, d, k)),
         "if-branch" => {
-            let mut inner = spawn(&mut n, &mut items, r, d);
+            let mut inner = spawn(&mut n, &mut items, r, d, k);
             inner.push(st(println(s("then"))));
             b.push(st(if_(bin(BinOp::Eq, rget(d), int(0)), block(inner, None), block(vec![st(println(s("else")))], None))));
         }
         "while-twice" => {
             let i = n.fresh("i");
             b.push(let_(i, bi("ref", vec![int(0)])));
-            let mut inner = spawn(&mut n, &mut items, r, d);
+            let mut inner = spawn(&mut n, &mut items, r, d, k);
             inner.push(st(rset(i, add(rget(i), int(1)))));
             b.push(st(E::While(Box::new(bin(BinOp::Lt, rget(i), int(2))), Box::new(block(inner, None)))));
         }
         "callee" => {
-            let (pr, pd) = (n.fresh("sr"), n.fresh("sd"));
-            let mut inner = spawn(&mut n, &mut items, pr, pd);
+            let (pr, pd, pk) = (n.fresh("sr"), n.fresh("sd"), n.fresh("sk"));
+            let mut inner = spawn(&mut n, &mut items, pr, pd, pk);
             inner.push(st(println(s("spawned"))));
-            items.push(fn_def("spawner", vec![(pr, refi()), (pd, refi())], Some(Ty::Unit), block(inner, None)));
-            b.push(st(call("spawner", vec![v(r), v(d)])));
+            items.push(fn_def("spawner", vec![(pr, refi()), (pd, refi()), (pk, Ty::i32())], Some(Ty::Unit), block(inner, None)));
+            b.push(st(call("spawner", vec![v(r), v(d), v(k)])));
         }
         "called-closure" => {
             let sp = n.fresh("sp");
-            let inner = spawn(&mut n, &mut items, r, d);
+            let inner = spawn(&mut n, &mut items, r, d, k);
             b.push(let_(sp, E::Closure(vec![], Box::new(block(inner, None)))));
             b.push(st(E::Call(Box::new(v(sp)), vec![])));
         }
         "match-arm" => {
-            let inner = spawn(&mut n, &mut items, r, d);
+            let inner = spawn(&mut n, &mut items, r, d, k);
             b.push(st(E::Match(
                 Box::new(rget(d)),
                 vec![(Pat::Int(0, IntKind::I32, false), block(inner, None)), (Pat::Wild, block(vec![st(println(s("no")))], None))],
             )));
         }
         _ => {
-            let mut inner = spawn(&mut n, &mut items, r, d);
+            let mut inner = spawn(&mut n, &mut items, r, d, k);
             inner.push(st(println(s("outer"))));
             b.push(st(E::Go(Box::new(E::Closure(vec![], Box::new(block(inner, None)))))));
         }
     }
+    // the spawner's continuation; `shadow` binds the captured local's spelling again and shows the new one
+    let mut cur_k = k;
     for o in tail {
-        b.push(op(o, "m", r, d));
+        if *o == "shadow" {
+            let k2 = n.fresh_exact("k");
+            b.push(let_(k2, add(v(cur_k), int(4))));
+            cur_k = k2;
+            b.push(op("local", "m", r, d, cur_k));
+        } else {
+            b.push(op(o, "m", r, d, cur_k));
+        }
     }
     items.push(fn_def("main", vec![], Some(Ty::Unit), block(b, None)));
     Program::single(items, n.names.clone())
@@ -190,7 +204,7 @@ impl Family for GoForms {
         600
     }
     fn rule(&self) -> &'static str {
-        "generated `go` programs over two shared cells: 7 forms of the spawned value (closure literal, let-bound closure, closure made by a call, closures joined by an if, struct field, vector element, closure calling a worker function) x 7 places of the `go` (main, if branch, while body run twice = two activations, called function, called closure, match arm, inside another goroutine) x goroutine bodies of 1-2 operations over {print, print a read, write, increment, count done} (30) x continuations of the spawner of 0-2 operations over {print, print a read, increment, spin-wait} (21). quick: every form x place with 6 bodies x 5 continuations, plus literal-in-main with every body and continuation; thorough: the whole product (30870). Every program: stateless DFS over every schedule of the emitted Go and of the reference semantics, yielding at every cell operation, print, spawn and loop back-edge (quick: preemption bound 2; thorough: bounds 2, 3, unbounded in turn, each capped at 4000 schedules per side; the largest completed bound decides and is reported per program); oracle: equal sets of terminal observations (stdout, end). states = scheduling points visited, transitions = schedules executed; non-trivial = programs with > 1 distinct outcome"
+        "generated `go` programs over two shared cells: 7 forms of the spawned value (closure literal, let-bound closure, closure made by a call, closures joined by an if, struct field, vector element, closure calling a worker function) x 7 places of the `go` (main, if branch, while body run twice = two activations, called function, called closure, match arm, inside another goroutine) x goroutine bodies of 1-2 operations over {print, print a read, write, increment, count done, print a captured local} (42) x continuations of the spawner of 0-2 operations over {print, print a read, increment, spin-wait, bind the captured local's spelling again and print it} (31). quick: every form x place with 8 bodies x 6 continuations, plus literal-in-main with every body and continuation; thorough: the whole product (30870). Every program: stateless DFS over every schedule of the emitted Go and of the reference semantics, yielding at every cell operation, print, spawn and loop back-edge (quick: preemption bound 2; thorough: bounds 2, 3, unbounded in turn, each capped at 4000 schedules per side; the largest completed bound decides and is reported per program); oracle: equal sets of terminal observations (stdout, end). states = scheduling points visited, transitions = schedules executed; non-trivial = programs with > 1 distinct outcome"
     }
     fn cases(&self, tier: Tier) -> Box<dyn Iterator<Item = Value> + '_> {
         let (bs, ts) = (bodies(), tails());
@@ -207,8 +221,8 @@ impl Family for GoForms {
                 }
             }
         } else {
-            let qb: Vec<Vec<&'static str>> = vec![vec!["print"], vec!["read", "done"], vec!["inc", "done"], vec!["write1", "read"], vec!["done", "print"], vec!["inc", "inc"]];
-            let qt: Vec<Vec<&'static str>> = vec![vec![], vec!["read"], vec!["wait", "read"], vec!["inc", "read"], vec!["print", "wait"]];
+            let qb: Vec<Vec<&'static str>> = vec![vec!["print"], vec!["read", "done"], vec!["inc", "done"], vec!["write1", "read"], vec!["done", "print"], vec!["inc", "inc"], vec!["local"], vec!["local", "done"]];
+            let qt: Vec<Vec<&'static str>> = vec![vec![], vec!["read"], vec!["wait", "read"], vec!["inc", "read"], vec!["print", "wait"], vec!["shadow"]];
             for f in FORMS {
                 for p in PLACES {
                     for b in &qb {
